@@ -72,6 +72,18 @@ def cases(tier, seed):
             for a in alpha:
                 out.append({"cfg": cfg, "prefix": [a],
                             "enumerate": (L - 2)})
+    # structured histories: a forward sweep of a steps, an accepted
+    # finalize, b further actions (through EndForward, into and beyond the
+    # adjoint passes), then one more finalize call
+    for cfg in configs(th):
+        if cfg["cls"] not in ONLINE:
+            continue
+        for a in (1, 2, 3):
+            for b in range(0, 16 if th else 13):
+                for sym in ("maxn", "maxn+1", "told-1", "one"):
+                    out.append({"cfg": cfg, "history":
+                                ["next"] * a + ["fin:told"] + ["next"] * b
+                                + ["fin:" + sym, "next", "next"]})
     # seeded longer histories
     cfgs = configs(th)
     for i in range(6000 if th else 700):
@@ -150,6 +162,11 @@ def run_history(cfg, ops, H):
     label = f"{cfg_str(cfg)} history={ops}"
     n_next = 0
     nontrivial = False
+    # shadow of where the forward state stands, from the emitted actions
+    # only: Forward -> n1; loading a restart checkpoint -> its step; loading
+    # a dependency checkpoint -> undefined (None)
+    shadow = 0
+    kinds = {}
     for idx, op in enumerate(ops):
         if op == "next":
             (ra, a) = _next(s)
@@ -166,6 +183,15 @@ def run_history(cfg, ops, H):
                 expect_ef = False
             if a is not None:
                 emitted.append(a)
+                t_ = act_tuple(a)
+                if t_[0] == "Forward":
+                    shadow = t_[2] if known is None else min(t_[2], known) \
+                        if isinstance(t_[2], int) else t_[2]
+                    if t_[5] in ("RAM", "DISK"):
+                        kinds[(t_[5], t_[1])] = "ics" if t_[3] else "deps"
+                elif t_[0] in ("Copy", "Move") and t_[3] == "WORK":
+                    shadow = t_[1] if kinds.get((t_[2], t_[1])) == "ics" \
+                        else None
                 if isinstance(a, Forward) and known is None:
                     told = a.n1
                     last_forward = a
@@ -180,7 +206,10 @@ def run_history(cfg, ops, H):
             H.ck("outcome_matches_model", False,
                  f"{label}: reading n/r/max_n raised {e!r}")
             return nontrivial
-        exp = O.finalize_model(known, told, before[0], k)
+        # "the forward stands at max_n" is judged from the action stream
+        # (shadow), not from the schedule's own report
+        cur = before[0] if known is None else shadow
+        exp = O.finalize_model(known, told, cur, k)
         try:
             s.finalize(k)
             got = "ok"
@@ -206,6 +235,7 @@ def run_history(cfg, ops, H):
                      f"{label}: twin rejected the finalize({k}) the subject "
                      f"accepted: {e!r}")
             known = k
+            shadow = k
             expect_ef = True
             accepted_k = k
             fin_after_last_forward = (
